@@ -6,8 +6,32 @@
    the same observation. *)
 From Coq Require Import List ZArith Bool Lia.
 Import ListNotations.
-From Goat Require Import Base.Explore Model.Client Check.ClientC Model.Server.
+From Goat Require Import Base.Explore Model.Client Model.Server.
 Open Scope Z_scope.
+
+(* ---- helpers on envelopes (kept local: this file does not depend on Check/ClientC.v) ---- *)
+Definition opt_eqb {A} (f : A -> A -> bool) (a b : option A) : bool :=
+  match a, b with None, None => true | Some x, Some y => f x y | _, _ => false end.
+Definition mdv_eqb (a b : mdv) : bool :=
+  match a, b with MdOk x, MdOk y => x =? y | MdBad, MdBad => true | _, _ => false end.
+Definition status_eqb (a b : status) : bool := (st_code a =? st_code b) && (st_msg a =? st_msg b).
+Definition env_eqb (a b : env) : bool :=
+  (eid a =? eid b) && opt_eqb mdv_eqb (ehdr a) (ehdr b) && opt_eqb status_eqb (estatus a) (estatus b)
+  && opt_eqb Z.eqb (ebody a) (ebody b) && opt_eqb mdv_eqb (etrl a) (etrl b) && Bool.eqb (erst a) (erst b).
+Definition count {A} (f : A -> A -> bool) (x : A) (l : list A) : nat := length (filter (f x) l).
+Definition multiset_eqb {A} (f : A -> A -> bool) (a b : list A) : bool :=
+  Nat.eqb (length a) (length b) && forallb (fun x => Nat.eqb (count f x a) (count f x b)) a.
+Definition optZ_code (o : option Z) : list Z := match o with None => [0] | Some x => [1; x] end.
+Definition mdv_code (m : option mdv) : list Z := match m with None => [0] | Some MdBad => [1] | Some (MdOk t) => [2; t] end.
+Definition env_code (e : env) : list Z :=
+  eid e :: mdv_code (ehdr e) ++ match estatus e with None => [0] | Some s => [1; st_code s; st_msg s] end
+  ++ optZ_code (ebody e) ++ mdv_code (etrl e) ++ [if erst e then 1 else 0].
+Fixpoint lex_leb (a b : list Z) : bool :=
+  match a, b with
+  | [], _ => true
+  | _ :: _, [] => false
+  | x :: a', y :: b' => if x <? y then true else if y <? x then false else lex_leb a' b'
+  end.
 
 Record obs := mkObs {
   o_events : list sev;      (* handler invocations / operation results / returns / Serve return since the
@@ -52,7 +76,8 @@ Definition sev_eqb (a b : sev) : bool :=
       Nat.eqb h h' && Bool.eqb u u' && (i =? i') && mkind_eqb m m' && (p =? p') && (d =? d')
   | SvOp h r, SvOp h' r' => Nat.eqb h h' && opres_eqb r r'
   | SvRet h, SvRet h' => Nat.eqb h h'
-  | SvWrite x, SvWrite y => frame_eqb x y
+  | SvWrite x, SvWrite y | SvTaken x, SvTaken y | SvWFail x, SvWFail y | SvAbandon x, SvAbandon y => frame_eqb x y
+  | SvUnreg h, SvUnreg h' => Nat.eqb h h'
   | SvFwd h x, SvFwd h' y | SvDrop h x, SvDrop h' y | SvTake h x, SvTake h' y => Nat.eqb h h' && frame_eqb x y
   | SvServeRet x, SvServeRet y => serr_eqb x y
   | _, _ => false
@@ -122,6 +147,10 @@ Definition sev_code (e : sev) : list Z :=
   | SvDrop h f => 7 :: Z.of_nat h :: frame_code f
   | SvTake h f => 8 :: Z.of_nat h :: frame_code f
   | SvServeRet e => [9; match e with SRead => 0 | SReadCtx => 1 | SCtx => 2 | SWrite => 3 end]
+  | SvTaken f => 10 :: frame_code f
+  | SvWFail f => 11 :: frame_code f
+  | SvUnreg h => [12; Z.of_nat h]
+  | SvAbandon f => 13 :: frame_code f
   end.
 Definition sev_leb (a b : sev) : bool := lex_leb (sev_code a) (sev_code b).
 Definition is_write (e : sev) : bool := match e with SvWrite _ => true | _ => false end.
